@@ -5,7 +5,7 @@ PROP = 'C05'
 LEAN_MODULES = ['EpyVerif.Props.C05']
 TRUSTED = sc.SIM_TRUSTED + ["fire_member_sto assumes draw() returns a member of the set it is called on (proved of the DrawSet model in C09)"]
 ASSUMPTIONS = []
-RULE = ("every shipped model (incl. per-edge variable infection) and scripted processes under both dynamics on stars, cliques, paths and "
+RULE = ("every shipped model (incl. per-edge variable infection) and scripted processes (and histories of the topology API, single and bulk forms, after which nothing that left the network may remain in a locus) under both dynamics on stars, cliques, paths and "
         "random networks, with probabilities up to 1 so that several chosen events compete for one node in a timestep, posted events "
         "that empty loci, zero probabilities and empty loci; full trace compared with the Lean model; beside it the membership oracle "
         "checks, at every call of an event function, that the element is in the tracked set its locus stands for. "
@@ -18,7 +18,7 @@ def _jobs(ctx):
     n = 30 if q else 400
     return (sc.corpus_job(ctx) + [(f'comp{k}', ['compete', n]) for k in range(6 if q else 12)]
             + [(f'ship{k}', ['shipped', n]) for k in range(3 if q else 8)] + [(f'queue{k}', ['queue', n]) for k in range(3 if q else 6)]
-            + [(f'varfix{k}', ['varfix', 2 * n]) for k in range(3 if q else 6)] + [('fixrec', ['fixrec_sto', n])])
+            + [(f'varfix{k}', ['varfix', 2 * n]) for k in range(3 if q else 6)] + [('fixrec', ['fixrec_sto', n]), ('api', ['ops', n])])
 
 
 def _nontrivial(e):
